@@ -138,7 +138,7 @@ Definition fetch_inline (sequence : str) (uids : list Z) : option (list (Z * Z))
     else
       match atoi sequence with
       | None => None
-      | Some n => Some (label_from 1 (sql_limit_offset uids 1 (n - 1)))
+      | Some n => Some (label_from 1 (sql_limit_offset uids 1 (wrap64 (n - 1))))   (* msgNum-1 in int64 *)
       end
   end.
 
